@@ -194,7 +194,16 @@ theorem C06_buffers_only_matter_with_filters (d : Sig.FData) (bufs' : List Sig.A
 theorem C06_values_abstract_is_model (d : Sig.FData) : Sig.fnValuesA Sig.gainSem d = Sig.fnValues d :=
   Sig.fnValuesA_gain d
 
-/-- window counts: `n_before = ⌈buffer/dt⌉` (and likewise `n_after`) -/
+/-- window counts: `n_before = ⌈buffer/dt⌉` (and likewise `n_after`).
+This is a statement about EXACT rationals: `Sig.nbuf` is the code's decision
+`int(b/dt) + (1 if b % dt else 0)` read over ℚ.  The code takes that decision in floating point, where
+it is NOT always the ceiling of the rounded quotient: for `dt = 0.1`, `b = 0.5` the quotient rounds to
+`5.0` while `b % dt ≠ 0`, so the code counts 6 points and `ceil(b/dt)` would count 5.  What the
+property needs at such boundaries is only that `_full_times` and `_value_window` take the *same*
+decision (then the window still has one value per sample and starts at `times[0]`,
+`C06_window_length`); that is covered by the correspondence run and the search (sample spacings that
+are not binary fractions, buffers on and one ulp next to `k·dt`, comparison with the independent
+eager evaluation), not by this theorem. -/
 theorem C06_window_counts (b dt : Rat) (hq : 0 ≤ b / dt) : Sig.nbuf b dt = (b / dt).ceil :=
   Sig.nbuf_eq_ceil hq
 
